@@ -126,6 +126,11 @@ func init() {
 				}
 				kinds[ids[i]] = k
 				reqs[ids[i]] = w.build(k)
+				// framing: every fourth round (bursts included) all uploads are large or of unknown length, so that several such
+				// uploads overlap; otherwise one request in four
+				if round%4 == 2 || rng.Intn(4) == 0 {
+					reqs[ids[i]].framing = []string{"padded", "chunked", "padded"}[rng.Intn(3)]
+				}
 				all = append(all, reqs[ids[i]])
 			}
 			base := map[string]int{}
